@@ -457,6 +457,89 @@ def _pt_view(p, f, pl, depth=0):
     return None
 
 
+def dec1(p, res):
+    """decryption: the accumulators in which the phase `b + <a, s>` is formed (big / DFT temporaries taken from scratch, the LWE phase temporary) have at least as
+    many limbs as the ciphertext for every shape.  The accumulated limbs are not normalised: the limbs left out contribute about rank * N * 2^(base2k - 1) units
+    of the first dropped limb, i.e. rank * N / 2^(base2k * g + 1) units of the last plaintext limb with g guard limbs - unbounded in the ring degree for any
+    number of guard limbs that does not depend on it.  A limb count that mentions the ring degree is left undecided."""
+    n = 0
+    cache = {}
+    VIEWS = ("to_ref", "to_mut", "data", "data_mut", "deref", "as_ref", "borrow")
+    for f in sorted(p.lib_fns(), key=lambda x: x.uid):
+        if f.kind == "Closure" or f.is_test() or not f.uid.startswith("poulpy_core::decryption") or "tmp_bytes" in f.name:
+            continue
+        takes = []
+        bodies = [f] + list(p.closures_of(f))
+        for body in bodies:
+            for bi, t in body.calls():
+                nm = (body.callee_def(t) or {}).get("n", "")
+                if nm in ("take_vec_znx_big", "take_vec_znx_dft", "take_vec_znx") and len(t["a"]) >= 3:
+                    takes.append((body, bi, t, nm))
+        if not takes:
+            continue
+        # the ciphertext: the parameter whose data is added to / transformed into the accumulators
+        flow = Flow(f, transparent=VIEWS)
+        ct = set()
+        for body in bodies:
+            bflow = flow if body is f else Flow(body, transparent=VIEWS)
+            for bi, t in body.calls():
+                nm = (body.callee_def(t) or {}).get("n", "")
+                src = None
+                if nm == "vec_znx_big_add_small_assign" and len(t["a"]) >= 4:
+                    src = t["a"][3]
+                elif nm == "vec_znx_dft_apply" and len(t["a"]) >= 6:
+                    src = t["a"][5]
+                if src is None:
+                    continue
+                for r in bflow.op_roots(src):
+                    if r[0] == "param" and body is f:
+                        ct.add(r[1])
+                    elif r[0] == "upvar" or (r[0] == "param" and body is not f):
+                        pass
+        if len(ct) != 1:
+            # closures read the ciphertext through captures: fall back to the first non-self parameter (the ciphertext by the API's convention), checked by name
+            pn = f.param_names()
+            ct = {l for l, nm in pn.items() if nm == "res"}
+        if len(ct) != 1:
+            res.undec("DEC-1", "%s: ciphertext parameter not identified" % f.pretty)
+            continue
+        ctp = sorted(ct)[0]
+        want = Poly.atom(("f", "size", (Poly.atom(("p", ctp, ())).key(),)))
+        for body, bi, t, nm in takes:
+            n += 1
+            if body is f:
+                sym, w_poly = Sym(f, Flow(f)), want
+            else:
+                from .c14 import chain_sym, _rename_params
+                sym, w_poly = chain_sym(p, body, cache), _rename_params(want, f.uid)
+            sz = sym.operand(t["a"][-1])
+            atoms = pwl_atoms(sz)
+            if any(a[0] == "f" and a[1] in ("n", "log_n", "ilog2", "log2") for a in atoms) or any(a[0] == "p" and a[2][-1:] == ("n",) for a in atoms):
+                res.undec("DEC-1", "%s: the limb count of %s depends on the ring degree (%r)" % (f.pretty, nm, sz))
+                continue
+            bad = None
+            pts = 0
+            for val in pwl.valuations(count=1500, hi=24):
+                ev = pwl.Eval(p, val)
+                try:
+                    a, w = ev.poly(sz), ev.poly(w_poly)
+                except pwl.ErrPath:
+                    continue
+                pts += 1
+                if a < w and bad is None:
+                    bad = {"accumulator_limbs": a, "ciphertext_limbs": w}
+            if bad:
+                res.bad("DEC-1", f.pretty, "phase-accumulator-narrower-than-ciphertext:%s" % nm,
+                        "%s forms the phase in a %s of %r limbs: for a ciphertext of %d limbs it has %d - the limbs left out are not normalised and carry about rank * N * 2^(base2k - 1) "
+                        "units each into the limbs kept, more than the configured error for small radices / large rings" % (f.pretty, nm[len("take_"):], sz, bad["ciphertext_limbs"], bad["accumulator_limbs"]),
+                        site=f.where(t["l"]), detail=bad)
+            elif pts < 200:
+                res.undec("DEC-1", "%s: too few points for %r" % (f.pretty, sz))
+            else:
+                res.ok("DEC-1", {"fn": f.pretty, "take": nm, "limbs": repr(sz), "ciphertext": f.param_names().get(ctp), "points": pts})
+    return n
+
+
 def pos1(p, res):
     """an encryption that is handed a (GLWE / LWE) plaintext object moves its limbs into a buffer of the ciphertext's radix: the plaintext's radix has to be compared with the
     ciphertext's (or with the radix parameter of the internal routine) somewhere on the way - by the entry or by a routine it hands the plaintext to"""
@@ -494,6 +577,7 @@ def run(res, tier):
     res.rule("ERR-4", "the magnitude guard of a Gaussian sampling shape function is applied to the scaled bound the samples are truncated at")
     res.rule("RND-9", "sigma and bound of every Gaussian sampling site carry the same scale factor (shared with C06)")
     res.rule("RAD-3", "encryption / decryption: min / max of the limb counts of two objects only where their radices are known equal")
+    res.rule("DEC-1", "decryption forms the phase in accumulators (big / DFT temporaries) with at least the ciphertext's limb count for every shape")
     res.rule("POS-1", "encryptions taking a GLWE / LWE plaintext compare its radix with the ciphertext's (entry or a routine the plaintext is handed to)")
     res.assumptions = ["rand_distr::Normal samples N(0, sigma); f64 rounding of the sample adds at most 1/2", "every encryption injects the noise exactly once: RND-1 / RND-7 under C06"]
     cfgs = ["avx-dev"] if tier == "quick" else ["avx-dev", "ref-dev"]
@@ -516,4 +600,6 @@ def run(res, tier):
         res.floor("RAD-3", "limb counts of two objects combined", nr3, 1)
         np1 = pos1(p, res)
         res.floor("POS-1", "encryptions taking a radix-carrying plaintext", np1, 4)
+        nd1 = dec1(p, res)
+        res.floor("DEC-1", "phase accumulators of the decryption routines", nd1, 2)
         res.fn_count += n1 + n2 + n3
